@@ -622,8 +622,8 @@ theorem assignIdx_rel {fuel ld : Nat} {σ : Store} {a : String} {i e : Expr} {in
     simp only [hT] at hs
     obtain ⟨lo, hi, hag, hi'⟩ := Spec.infer_idx hT
     have hσa : σ.aggs.lookup a = some (.arr lo hi t) := by rw [hσ.aggs]; exact hag
-    have ndi : noDriftE Γ i = true ∧ Spec.infer Γ i ≠ some (.int .ulint) := by
-      simpa [noDriftE] using hndI
+    have ndi : noDriftE Γ i = true ∧ (Spec.infer Γ i ≠ some (.int .ulint) ∨ hi < 9223372036854775807) := by
+      simpa [noDriftE, arrHiOK, hag] using hndI
     have hty : (∃ m, Spec.atomVal i = some m) ∨ (∃ k, Spec.infer Γ i = some (.int k)) := by
       rcases hi' with ⟨m, hm, _⟩ | ⟨_, k, hk⟩
       · exact .inl ⟨m, hm⟩
